@@ -395,6 +395,51 @@ class Real:
         assert r is None and state.get_sym_value(node.outputs[0]) is x
         return enc_ir_shape(x.shape)
 
+    def rule_expand_binary(self, op, side, x, y, tkind, const, eo, bo, use_set):
+        """Apply the real expand-before-binary-op rule(s) to `op(Expand(x, t), y)` (side 0) or
+        `op(y, Expand(x, t))` (side 1).  `x` = shape of the Expand input, `y` = shape of the other operand,
+        tkind: 'c' constant target `const`, 'i' target is a graph input, 's' target is Shape(z) of a third input;
+        `eo`/`bo`: annotations of the Expand output / binary-op output (None = absent).
+        Answer: 'no' or 'fired:<in0>,<in1>' (names of the rebuilt node's inputs)."""
+        import onnx
+        from onnx import TensorProto, helper
+
+        def vi(name, dt, shp):
+            if shp is None:
+                return helper.make_value_info(name, helper.make_tensor_type_proto(dt, None))
+            return helper.make_tensor_value_info(name, dt, list(shp))
+
+        inputs = [vi("xin", TensorProto.FLOAT, x), vi("yin", TensorProto.FLOAT, y)]
+        inits, nodes = [], []
+        if tkind == "c":
+            inits.append(onnx.numpy_helper.from_array(np.array(const, dtype=np.int64), "tgt"))
+        elif tkind == "i":
+            inputs.append(vi("tgt", TensorProto.INT64, [None]))
+        else:
+            inputs.append(vi("zin", TensorProto.FLOAT, [None, None]))
+            nodes.append(helper.make_node("Shape", ["zin"], ["tgt"]))
+        nodes.append(helper.make_node("Expand", ["xin", "tgt"], ["e"]))
+        nodes.append(helper.make_node(op, ["e", "yin"] if side == 0 else ["yin", "e"], ["out"]))
+        value_info = [vi("e", TensorProto.FLOAT, eo)] if eo is not None else []
+        g = helper.make_graph(nodes, "g", inputs, [vi("out", TensorProto.FLOAT, bo)], initializer=inits, value_info=value_info)
+        m = self.ir.from_proto(helper.make_model(g, opset_imports=[helper.make_opsetid("", 18)], ir_version=8))
+        if x is None or y is None:
+            for v in m.graph.inputs:
+                if (v.name == "xin" and x is None) or (v.name == "yin" and y is None):
+                    v.shape = None
+        if use_set:
+            rs = self.reb.expand_before_binary_op_rules
+        else:
+            cls = self.reb._ExpandFirstInput if side == 0 else self.reb._ExpandSecondInput
+            rs = self.RewriteRuleSet([cls.rule(op)])
+        cnt = rs.apply_to_model(m)
+        if cnt == 0:
+            return "no"
+        ns = [n for n in m.graph if n.op_type == op]
+        assert cnt == 1 and len(ns) == 1
+        return "fired:" + ",".join(i.name for i in ns[0].inputs)
+
+
     # ---- rules (through real rule application on a one-node model)
     def _model(self, inputs, node_op, node_inputs, attrs, out_shape, out_dtype=None):
         import onnx
